@@ -207,6 +207,9 @@ def group_sentence(rnd, d):
                 leaves = list(br["fields"])
                 rnd.shuffle(leaves)
                 for it in leaves:
+                    if it["kind"] == "pos":
+                        items.append(it_word(value_for(rnd, it["vt"])))
+                        continue
                     if it["kind"] == "switch" or it["arity"] == "opt":
                         if rnd.random() < 0.5:
                             continue
